@@ -609,7 +609,12 @@ class Evaluator:
                 t = _truth(v)
                 if t is not None and t != it[2]:
                     return None   # infeasible under the assumptions
-                self.conds.append((it[1], it[2], v))
+                # recorded with leading negations folded into the polarity
+                pol = it[2]
+                while isinstance(v, tuple) and len(v) == 3 and v[0] == "unop" \
+                        and v[1] == "Not":
+                    v, pol = v[2], not pol
+                self.conds.append((it[1], pol, v))
             elif k == "for":
                 src = self.ev(it[1].iter)
                 self.bind_target(it[1].target, self.elem_of(src))
